@@ -97,6 +97,7 @@ def run(tier, seed):
     c.cov["round_trips"] = st["rounds"]
     c.cov["observer_results"] = st["observers"]
     c.cov["distinct_nontrivial"] = st["pairs"]
+    c.cov["evaluations"] = st["pairs"] + st["rounds"] + st["observers"]
     c.cov["rule"] = "non-trivial = ordered pairs of grid values whose ==, partial_cmp and hash answers were checked"
     c.cov["exhaustive"] = True
     c.sample({"kind": "trace_prefix", "value": [json.loads(x) for x in open(tp).read().splitlines()[:4]]})
